@@ -4,9 +4,11 @@
    subset).  Faithful to the code AS IT IS, including what it gets wrong:
      - an expression index column is written as the empty column name, a partial index's
        WHERE text is not written at all (serialize_index);
-     - deserialize only merges tables into schemas that already exist in the target
-       catalog (Catalog::new(): "root" id 0 and "turdb_catalog" id 1) and bails on any
-       other schema name; the schema id in the stream is ignored;
+     - deserialize merges tables into the schemas that already exist in the target catalog
+       (Catalog::new(): "root" id 0 and "turdb_catalog" id 1; such a schema keeps its own id,
+       the id in the stream is ignored) and re-creates any other schema with the id in the
+       stream (restore_schema, since /repo 0f25949); a built-in schema that is absent from the
+       stream is there after the load all the same;
      - lengths other than the four `ensure!`d names are cast with `as u16` / `as u32`.
    Definitions only, no proofs. *)
 From Coq Require Import ZArith List Bool.
@@ -312,15 +314,16 @@ Definition rd_schema : parser schema := fun bs =>
   let* (ts, r) := many rd_table nt r in
   Ok (Schema id name (tbl_insert_all ts []), r).
 
-(* `if let Some(existing) = catalog.get_schema_mut(name) { for t in tables { existing.add_table(t) } }
-    else bail!` -- the existing schema keeps its own id *)
-Fixpoint merge_schema (c : catalog) (s : schema) : option catalog :=
+(* `if !catalog.schema_exists(name) { catalog.restore_schema(id, name) }` (a fresh
+   Schema::new(id, name)), then `for t in tables { existing.add_table(t) }` -- a schema that was
+   already there keeps its own id *)
+Fixpoint merge_schema (c : catalog) (s : schema) : catalog :=
   match c with
-  | [] => None
+  | [] => [Schema (s_id s) (s_name s) (tbl_insert_all (s_tables s) [])]
   | x :: r =>
     if zlist_eqb (s_name x) (s_name s)
-    then Some (Schema (s_id x) (s_name x) (tbl_insert_all (s_tables s) (s_tables x)) :: r)
-    else match merge_schema r s with Some r' => Some (x :: r') | None => None end
+    then Schema (s_id x) (s_name x) (tbl_insert_all (s_tables s) (s_tables x)) :: r
+    else x :: merge_schema r s
   end.
 
 (* `while pos < bytes.len()` *)
@@ -332,10 +335,7 @@ Fixpoint deser_loop (fuel : nat) (bs : list Z) (c : catalog) : res catalog :=
     | O => OutOfFuel
     | S f =>
       let* (s, r) := rd_schema bs in
-      match merge_schema c s with
-      | Some c' => deser_loop f r c'
-      | None => Err
-      end
+      deser_loop f r (merge_schema c s)
     end
   end.
 (* CatalogPersistence::deserialize(bytes, &mut catalog); on Err the partially filled catalog
@@ -416,14 +416,12 @@ Definition wf_catalog (c : catalog) : bool :=
   forallb wf_schema c && names_distinct (map s_name c).  (* a HashMap keyed by schema name *)
 
 (* ------------------------------------------------------------------ known classes (codec) *)
-(* class 1: the set of schemas is not exactly the two that Catalog::new() creates *)
-Definition builtin_only (c : catalog) : bool :=
-  match c with
-  | [a; b] =>
-    (zlist_eqb (s_name a) name_root && (s_id a =? 0) && zlist_eqb (s_name b) name_syscat && (s_id b =? 1))
-    || (zlist_eqb (s_name a) name_syscat && (s_id a =? 1) && zlist_eqb (s_name b) name_root && (s_id b =? 0))
-  | _ => false
-  end.
+(* class 1: a schema that Catalog::new() creates is missing from the catalog (DROP SCHEMA root),
+   or is there with another id (dropped and created again): after a load it is back / has the
+   built-in id again *)
+Definition builtin_ok (c : catalog) (n : str) (id : Z) : bool :=
+  match find_schema c n with Some s => s_id s =? id | None => false end.
+Definition builtins_ok (c : catalog) : bool := builtin_ok c name_root 0 && builtin_ok c name_syscat 1.
 (* class 2: some index has an expression column or a WHERE clause *)
 Definition index_plain (i : index) : bool :=
   forallb (fun c => match ic_what c with ICColumn _ => true | ICExpr _ => false end) (ix_cols i)
@@ -432,7 +430,7 @@ Definition table_plain (t : table) : bool := forallb index_plain (t_indexes t).
 Definition catalog_plain (c : catalog) : bool := forallb (fun s => forallb table_plain (s_tables s)) c.
 
 Definition codec_class (c : catalog) : Z :=
-  if negb (builtin_only c) then 1 else if negb (catalog_plain c) then 2 else 0.
+  if negb (builtins_ok c) then 1 else if negb (catalog_plain c) then 2 else 0.
 
 (* ------------------------------------------------------------------ what the format keeps *)
 (* the catalog that comes back: an expression column has become the column named "", the
@@ -447,15 +445,11 @@ Definition lossy_schema (s : schema) : schema :=
   Schema (s_id s) (s_name s) (map lossy_table (s_tables s)).
 Definition lossy_catalog (c : catalog) : catalog := map lossy_schema c.
 
-(* merging every schema of a stream into a catalog, as deserialize does; None = bail! *)
-Definition merge_all (ss : list schema) (c : catalog) : option catalog :=
-  fold_left (fun o s => match o with Some c' => merge_schema c' s | None => None end) ss (Some c).
+(* merging every schema of a stream into a catalog, as deserialize does *)
+Definition merge_all (ss : list schema) (c : catalog) : catalog := fold_left merge_schema ss c.
 
 (* the catalog_length field of the header is a u64 *)
 Definition file_fits (c : catalog) : bool := zlen (enc_catalog c) <? 2 ^ 64.
-
-Definition is_builtin_name (n : str) : bool := zlist_eqb n name_root || zlist_eqb n name_syscat.
-Definition has_user_schema (c : catalog) : bool := existsb (fun s => negb (is_builtin_name (s_name s))) c.
 
 (* ------------------------------------------------------------------ witnesses of the two codec classes *)
 (* CREATE INDEX ixe ON t1 (lower(name)); CREATE INDEX ixp ON t1 (name) WHERE id > 3 *)
@@ -464,7 +458,12 @@ Definition ex_expr_table : table :=
     [Index [105;120;101] [IdxCol (ICExpr [108;111;119;101;114;40;110;97;109;101;41]) false] false false None;
      Index [105;120;112] [IdxCol (ICColumn [110;97;109;101]) false] false false (Some [40;105;100;32;71;116;32;51;41])]
     None.
+Definition ex_expr_table_plain : table :=
+  Table 4 [116;49] [Column [110;97;109;101] 20 [CNotNull] None None] None
+    [Index [105;120] [IdxCol (ICColumn [110;97;109;101]) true] true false None] None.
 Definition ex_expr_catalog : catalog := [Schema 0 name_root [ex_expr_table]; Schema 1 name_syscat []].
-(* CREATE SCHEMA analytics *)
+(* CREATE SCHEMA analytics; CREATE TABLE analytics.t1 (...) *)
 Definition ex_user_catalog : catalog :=
-  [Schema 0 name_root []; Schema 1 name_syscat []; Schema 2 [97;110;97;108;121;116;105;99;115] []].
+  [Schema 2 [97;110;97;108;121;116;105;99;115] [ex_expr_table_plain]; Schema 0 name_root []; Schema 1 name_syscat []].
+(* DROP SCHEMA root *)
+Definition ex_noroot_catalog : catalog := [Schema 1 name_syscat []].
